@@ -47,8 +47,9 @@ namespace akb {
   int64_t next_handle = 1;
   thread_local std::string last_error;
   thread_local std::string last_string;
-  std::mutex released_mutex;
-  std::vector<int64_t> released_tokens;
+  // heap-allocated and never destroyed: deleters may still run while static objects are torn down at exit
+  std::mutex& released_mutex = *new std::mutex();
+  std::vector<int64_t>& released_tokens = *new std::vector<int64_t>();
 
   int64_t put(const ak::ContentPtr& c) {
     if (c.get() == nullptr) throw BridgeError("bridge: null ContentPtr returned");
